@@ -28,4 +28,22 @@ if [ "$ID" = "C19" ]; then
   done
 fi
 rm -f "$LOG"
+if [ "$TIER" = "thorough" ]; then
+  # auxiliary pass of the thorough tier: the quick-size search once more with harness AND library compiled without
+  # debug assertions and overflow checks (the way a release build of a user's program sees the library). A
+  # violation found there is reported like any other; a build problem or an inconclusive pass is only noted.
+  AUX="not run (release build of the harness failed)"
+  if cargo build --offline --release >"$HERE/work/build-$ID-$$.rel.log" 2>&1; then
+    OUT=$(VERIF_NO_EVIDENCE=1 VERIF_NO_FUZZ=1 "$HERE/harness/target/release/vp" check "$ID" --tier quick 2>&1); CODE=$?
+    if [ $CODE -eq 1 ]; then
+      echo "$OUT" | sed 's/^VIOLATION /VIOLATION /'
+      echo "(found by the auxiliary pass without debug assertions and overflow checks)"
+      rm -f "$HERE/work/build-$ID-$$.rel.log"
+      exit 1
+    fi
+    AUX="exit $CODE: $(echo "$OUT" | tail -1)"
+  fi
+  rm -f "$HERE/work/build-$ID-$$.rel.log"
+  export VERIF_EXTRA_NOTE="thorough tier: a quick-size pass with the harness and the library compiled without debug assertions and overflow checks ran first ($AUX)"
+fi
 exec "$HERE/harness/target/debug/vp" check "$ID" --tier "$TIER"
